@@ -21,6 +21,8 @@ pub struct Params {
     pub trace: bool,
     pub kind: Option<Kind>,
     pub scenario: Option<String>,
+    /// replay / shrinking: stop the random phase after this many operations
+    pub cut: Option<usize>,
 }
 
 /// what a history contained, for the per-property non-triviality rules
@@ -59,6 +61,7 @@ pub struct Flags {
     pub task_switches: u32,
     pub starve_rounds: u64,
     pub ctor_called: bool,
+    pub continuation_polls: u32,
 }
 
 pub struct HistResult {
@@ -117,6 +120,12 @@ pub struct Hist {
     pub layouts_seen: HashSet<u64>,
     pub polls_done: u64,
     pub desc: String,
+    /// mirror of the outgoing position counter of the ordered collections (coverage only)
+    pub pos: usize,
+    pub continuation_polls: u32,
+    pub merge_last_src: Option<u32>,
+    pub merge_switches: u32,
+    pub cut: Option<usize>,
 }
 
 pub fn msg_of(p: Box<dyn std::any::Any + Send>) -> String {
@@ -172,6 +181,11 @@ impl Hist {
             layouts_seen: HashSet::new(),
             polls_done: 0,
             desc: String::new(),
+            pos: 0,
+            continuation_polls: 0,
+            merge_last_src: None,
+            merge_switches: 0,
+            cut: None,
         }
     }
 
@@ -303,6 +317,7 @@ impl Hist {
         self.kind = kind;
         self.cap = cap;
         self.start = start;
+        self.pos = start.unwrap_or(0);
         self.w.kid_kind_try.set(kind.is_try());
         self.flags.ctor_called = true;
         let from_iter = matches!(ctor, Ctor::FromIter) || kind.is_join() || kind == Kind::MergeB;
@@ -446,6 +461,13 @@ impl Hist {
             bump(&w.stats.task_switches);
         }
         w.task.borrow_mut().current = waker;
+        if self.kind.is_ordered() && self.pos >> (usize::BITS - 1) == 1 {
+            self.flags.rebase_crossed += 1;
+            self.pos ^= 1 << (usize::BITS - 1);
+        }
+        if self.join_ready_seen {
+            self.continuation_polls += 1;
+        }
         w.call_no.set(w.call_no.get() + 1);
         w.child_polls_in_call.set(0);
         w.pending_streak.set(0);
@@ -755,6 +777,7 @@ impl Hist {
             self.order.remove(p);
         }
         self.flags.processed += 1;
+        self.pos = self.pos.wrapping_add(1);
     }
 
     fn on_merge_item(&mut self, src: u32, seq: u32) {
@@ -768,6 +791,13 @@ impl Hist {
             w.violation("C11", "per_source_order", format!("source {src}: yielded seq {seq}, expected {exp}"));
         }
         self.src_next[src as usize] = seq.max(exp) + 1;
+        if self.merge_last_src.map_or(false, |l| l != src) {
+            self.merge_switches += 1;
+            if self.merge_switches >= 2 && seq >= 1 {
+                self.flags.merge_interleaved = true;
+            }
+        }
+        self.merge_last_src = Some(src);
         self.n_yielded += 1;
         self.flags.processed += 1;
     }
@@ -924,8 +954,11 @@ impl Hist {
                     w.violation("C15", "accepted_when_full", format!("push of kid {id} accepted although the model says the subject is full ({})", self.desc));
                 }
                 self.accept(id, front);
-                if front && self.polls_done > 0 {
-                    self.flags.push_front_after_poll += 1;
+                if front {
+                    self.pos = self.pos.wrapping_sub(1);
+                    if self.polls_done > 0 {
+                        self.flags.push_front_after_poll += 1;
+                    }
                 }
                 if self.n_yielded > 0 {
                     self.flags.refills += 1;
@@ -1532,8 +1565,8 @@ pub fn run_history(p: &Params, hist_index: u64) -> HistResult {
     let n_ops = h.rng.range(5, max_ops);
     let early_drop = h.rng.chance(if matches!(p.prop, 3 | 6) { 1 } else { 1 }, if matches!(p.prop, 3 | 6) { 2 } else { 5 });
     if ok {
-        for _ in 0..n_ops {
-            if w.has_violation() || h.subj.is_none() {
+        for i in 0..n_ops {
+            if w.has_violation() || h.subj.is_none() || p.cut.map_or(false, |c| i >= c) {
                 break;
             }
             h.ops += 1;
@@ -1562,6 +1595,7 @@ pub fn finish_result(mut h: Hist) -> HistResult {
     w.drop_all_wakers();
     alloc::set_poison(false);
     h.flags.slot_reuse = w.stats.slot_reuse.get() as u32;
+    h.flags.continuation_polls = h.continuation_polls;
     let violations = w.viol.borrow().clone();
     let tail: Vec<String> = w.ring.borrow().iter().map(|e| format!("{} {} {} {}", e.clock, world::ev_name(e.code), e.a as i64, e.b)).collect();
     world::install(None);
@@ -1689,5 +1723,63 @@ fn step(h: &mut Hist, p: &Params) {
                 h.h(0xE1);
             }
         }
+    }
+}
+
+// ---------------------------------------------------------------------- non-triviality rules
+
+pub fn rule_text(prop: u8) -> &'static str {
+    match prop {
+        1 => "history contains >=1 invocation of a live child's waker while the last poll result was Pending and >=1 Pending return with >=1 held child",
+        2 => "history contains >=1 slot reuse and >=1 completion out of push order (unbounded subjects additionally >=1 group created or removed)",
+        3 => "history contains >=1 waker invoked after its child finished and >=1 waker-vtable call after the collection handle was dropped",
+        4 => "history contains >=1 completion out of queue order and (>=1 push_front after the first poll, or a re-base of the position counters, or a join of >=2 inputs)",
+        5 => "history contains >=1 stale waker invoked after its child finished",
+        6 => "owner dropped while >=1 child unfinished or >=1 output produced but not handed out",
+        7 => "join of >=2 inputs not all ready at the first poll; try_join_all additionally >=1 Err and >=1 continuation poll",
+        8 => ">=1 move of the collection value between two polls while children are held, or group creation/removal while a polled child is held",
+        9 => "limit reached >=1 time and >=1 refill after a completion",
+        10 => "upstream with >=1 Pending gap that ended while >=1 future was in flight (for_each_concurrent(0): the upstream was pulled at all)",
+        11 => ">=2 sources with interleaved items and >=1 source pushed after the first item was yielded",
+        12 => ">=1 redundant wake (same slot woken twice between two polls) and >=1 stale wake of a vacant or reused slot",
+        13 => "directed: busy population present and victim woken / budget exhausted >=1 time; random: >=1 live wake while pending and a later poll",
+        14 => ">=1 quiet phase entered with >=1 held child",
+        15 => ">=1 refused push and >=1 refill after a completion, or a capacity-0 constructor call",
+        16 => "head of line unfinished while later futures finished (out-of-order completion with the limit reached)",
+        17 => "adapters: >=1 hint sampled after upstream ended with futures in flight; collections: >=1 refill after a yield",
+        18 => "bounded: >=3*cap children processed after construction; unbounded: >=2 fill/drain cycles or >=1 group created with >=10 processed",
+        _ => "",
+    }
+}
+
+pub fn nontrivial(prop: u8, r: &HistResult) -> bool {
+    let f = &r.flags;
+    let k = r.kind;
+    match prop {
+        1 => f.live_wake_while_pending >= 1 && f.pending_with_held >= 1,
+        2 => f.slot_reuse >= 1 && f.out_of_order_completion >= 1 && (!k.is_unbounded() || f.groups_created + f.groups_removed >= 1),
+        3 => f.stale_wakes >= 1 && f.orphan_vtable_calls >= 1,
+        4 => f.out_of_order_completion >= 1 && (f.push_front_after_poll >= 1 || f.rebase_crossed >= 1) || (k.is_join() && r.cap >= 2 && f.pending_with_held >= 1),
+        5 => f.stale_wakes >= 1,
+        6 => f.cancelled_nontrivial,
+        7 => k.is_join() && r.cap >= 2 && f.pending_with_held >= 1 && (k == Kind::JoinAll || (f.join_nontrivial && f.continuation_polls >= 1)),
+        8 => f.relocations_between_polls >= 1 || (f.groups_created + f.groups_removed >= 1 && f.pending_with_held >= 1),
+        9 => f.limit_reached >= 1 && f.refills >= 1,
+        10 => (f.up_gaps >= 1 && f.up_ended_in_flight) || (k == Kind::ForEach && r.cap == 0 && f.processed >= 1),
+        11 => f.merge_interleaved && f.src_pushed_late >= 1,
+        12 => f.redundant_wakes >= 1 && (f.vacant_wakes >= 1 || f.stale_wakes_after_reuse >= 1),
+        13 => f.starve_rounds > 0 || f.budget_hits > 0 || (f.live_wake_while_pending >= 1 && f.pending_with_held >= 1),
+        14 => f.quiet_phases >= 1,
+        15 => (f.refused >= 1 && f.refills >= 1) || (r.cap == 0 && f.ctor_called),
+        16 => f.hol_stall || (f.out_of_order_completion >= 1 && f.limit_reached >= 1),
+        17 => f.hint_after_up_end >= 1 || (k.is_collection() && f.refills >= 1),
+        18 => {
+            if k.is_unbounded() {
+                f.cycles >= 2 || (f.groups_created >= 1 && f.processed >= 10)
+            } else {
+                r.cap >= 1 && f.processed >= 3 * r.cap as u64
+            }
+        }
+        _ => false,
     }
 }
